@@ -936,5 +936,18 @@ def install(domain_cls):
     domain_cls.inplace_binop = inplace_binop
     domain_cls.obj_binop = obj_binop
 
+    def array_len(self_obj, it):
+        # len(a) == a.shape[0]; TypeError for 0-d arrays
+        if isinstance(self_obj, SNd) or "_buf" in getattr(self_obj, "fields", {}):
+            if it.branch(to_z3(arr_scalar(self_obj))):
+                it.raise_("TypeError")
+            n = ndim_of(z3.IntVal(shape_owner(self_obj)))
+            it.assume(n >= 1)
+            return dim_length(it, shape_owner(self_obj), 0)
+        raise Unsupported("len of %r" % (self_obj,))
+
+    SObj.sv_len = array_len
+    SNd.sv_len = array_len
+
 
 install(UD.UnytDomain)
